@@ -1,4 +1,4 @@
-package main
+package hx
 
 import (
 	"context"
@@ -33,7 +33,7 @@ type LakeEnv struct {
 	URI  *storage.URI
 }
 
-func lakeURI() *storage.URI {
+func LakeURI() *storage.URI {
 	u, err := storage.ParseURI("file:///lake")
 	if err != nil {
 		panic(err)
@@ -43,23 +43,23 @@ func lakeURI() *storage.URI {
 
 func NewLakeEnv() (*LakeEnv, error) {
 	eng := NewMemEngine()
-	root, err := lake.Create(context.Background(), eng, zap.NewNop(), lakeURI())
+	root, err := lake.Create(context.Background(), eng, zap.NewNop(), LakeURI())
 	if err != nil {
 		return nil, err
 	}
-	return &LakeEnv{Eng: eng, Root: root, API: lakeapi.FromRoot(root), URI: lakeURI()}, nil
+	return &LakeEnv{Eng: eng, Root: root, API: lakeapi.FromRoot(root), URI: LakeURI()}, nil
 }
 
 // OpenLakeEnv opens a fresh handle (cold caches) on an existing engine.
 func OpenLakeEnv(eng *MemEngine) (*LakeEnv, error) {
-	root, err := lake.Open(context.Background(), eng, zap.NewNop(), lakeURI())
+	root, err := lake.Open(context.Background(), eng, zap.NewNop(), LakeURI())
 	if err != nil {
 		return nil, err
 	}
-	return &LakeEnv{Eng: eng, Root: root, API: lakeapi.FromRoot(root), URI: lakeURI()}, nil
+	return &LakeEnv{Eng: eng, Root: root, API: lakeapi.FromRoot(root), URI: LakeURI()}, nil
 }
 
-func sortKeys(keyPath string, desc bool) order.SortKeys {
+func SortKeys(keyPath string, desc bool) order.SortKeys {
 	o := order.Asc
 	if desc {
 		o = order.Desc
@@ -68,7 +68,7 @@ func sortKeys(keyPath string, desc bool) order.SortKeys {
 }
 
 func (l *LakeEnv) CreatePool(name, keyPath string, desc bool, seekStride int, thresh int64) (ksuid.KSUID, error) {
-	return l.API.CreatePool(context.Background(), name, sortKeys(keyPath, desc), seekStride, thresh)
+	return l.API.CreatePool(context.Background(), name, SortKeys(keyPath, desc), seekStride, thresh)
 }
 
 func (l *LakeEnv) LoadZSON(pool ksuid.KSUID, branch, zsonText string) (ksuid.KSUID, error) {
@@ -82,7 +82,7 @@ func (l *LakeEnv) LoadValues(pool ksuid.KSUID, branch string, zctx *zed.Context,
 }
 
 // drain pulls everything from a puller and formats each value as ZSON.
-func drain(p zbuf.Puller) ([]string, error) {
+func Drain(p zbuf.Puller) ([]string, error) {
 	var out []string
 	for {
 		b, err := p.Pull(false)
@@ -99,7 +99,7 @@ func drain(p zbuf.Puller) ([]string, error) {
 	}
 }
 
-func safely(f func() error) (err error) {
+func Safely(f func() error) (err error) {
 	defer func() {
 		if r := recover(); r != nil {
 			err = fmt.Errorf("PANIC: %v", r)
@@ -110,7 +110,7 @@ func safely(f func() error) (err error) {
 
 // Query runs src on the lake with the given parallelism (0 = default).
 func (l *LakeEnv) Query(src string, par int) (out []string, err error) {
-	err = safely(func() error {
+	err = Safely(func() error {
 		seq, sset, err := compiler.Parse(src)
 		if err != nil {
 			return err
@@ -123,14 +123,14 @@ func (l *LakeEnv) Query(src string, par int) (out []string, err error) {
 			return err
 		}
 		defer q.Pull(true)
-		out, err = drain(q)
+		out, err = Drain(q)
 		return err
 	})
 	return out, err
 }
 
 func (l *LakeEnv) QueryAt(src string, par int, head *lakeparse.Commitish) (out []string, err error) {
-	err = safely(func() error {
+	err = Safely(func() error {
 		seq, _, err := compiler.Parse(src)
 		if err != nil {
 			return err
@@ -142,7 +142,7 @@ func (l *LakeEnv) QueryAt(src string, par int, head *lakeparse.Commitish) (out [
 			return err
 		}
 		defer q.Pull(true)
-		out, err = drain(q)
+		out, err = Drain(q)
 		return err
 	})
 	return out, err
@@ -151,7 +151,7 @@ func (l *LakeEnv) QueryAt(src string, par int, head *lakeparse.Commitish) (out [
 // RunQuery runs src over the given ZSON input text with the plain (non-lake)
 // compiler.
 func RunQuery(src string, input string) (out []string, err error) {
-	err = safely(func() error {
+	err = Safely(func() error {
 		seq, sset, err := compiler.Parse(src)
 		if err != nil {
 			return err
@@ -163,7 +163,7 @@ func RunQuery(src string, input string) (out []string, err error) {
 			return err
 		}
 		defer q.Pull(true)
-		out, err = drain(q)
+		out, err = Drain(q)
 		return err
 	})
 	return out, err
@@ -171,7 +171,7 @@ func RunQuery(src string, input string) (out []string, err error) {
 
 // RunQueryValues is RunQuery over in-memory values.
 func RunQueryValues(src string, zctx *zed.Context, vals []zed.Value) (out []string, err error) {
-	err = safely(func() error {
+	err = Safely(func() error {
 		seq, sset, err := compiler.Parse(src)
 		if err != nil {
 			return err
@@ -181,7 +181,7 @@ func RunQueryValues(src string, zctx *zed.Context, vals []zed.Value) (out []stri
 			return err
 		}
 		defer q.Pull(true)
-		out, err = drain(q)
+		out, err = Drain(q)
 		return err
 	})
 	return out, err
@@ -204,4 +204,4 @@ func (l *LakeEnv) LakeJob(src string) (*compiler.Job, *runtime.Context, error) {
 
 var errNoPuller = errors.New("no puller")
 
-func msg() api.CommitMessage { return api.CommitMessage{Author: "zvh", Body: "op"} }
+func Msg() api.CommitMessage { return api.CommitMessage{Author: "zvh", Body: "op"} }
